@@ -342,6 +342,16 @@ func TestC10_Compose(t *testing.T) {
 			st.Exclude("no patch survived generation")
 			return
 		}
+		if rapid.IntRange(0, 3).Draw(t, "patchRepeated") == 0 {
+			// the same patch twice in a row is two patches: the fold applies both (appending twice appends two entries; where
+			// the second application is an error per the action's semantics the list stays as it was)
+			i := rapid.IntRange(0, len(patches)-1).Draw(t, "repeatedAt")
+			twice := append(append(append([]interface{}{}, patches[:i+1]...), deepCopyValue(patches[i])), patches[i+1:]...)
+			if again, err := refCompose(start, twice); err == nil {
+				patches, ref = twice, again
+				labels = append(labels, "patch-twice-in-a-row")
+			}
+		}
 		lps, err := libPatches(patches)
 		if err != nil {
 			t.Fatalf("C10: %v", err)
@@ -432,6 +442,27 @@ func TestC10_Inapplicable(t *testing.T) {
 			if try == 0 && rapid.IntRange(0, 5).Draw(t, "testMissingForNull") == 0 {
 				// a location that does not exist is not a location holding null
 				op = map[string]interface{}{"op": "test", "path": rapid.SampledFrom([]string{"/missing", "/arr/9", "/o/nothing", "/name/x/y"}).Draw(t, "missingPath"), "value": nil}
+			}
+			if try < 3 && rapid.IntRange(0, 5).Draw(t, "memberOnlyInOtherCase") == 0 {
+				// member names of an operation are case-sensitive: an applicable operation whose op / path / from member is
+				// present only under a name in another letter case lacks that member
+				if _, err := refPatch6902(work, op); err == nil {
+					names := []string{"path", "op"}
+					if op["from"] != nil {
+						names = []string{"from", "from", "path", "op"}
+					}
+					name := rapid.SampledFrom(names).Draw(t, "respelledMember")
+					other := rapid.SampledFrom([]string{strings.ToUpper(name[:1]) + name[1:], strings.ToUpper(name)}).Draw(t, "otherCase")
+					cp := deepCopyValue(op).(map[string]interface{})
+					cp[other] = cp[name]
+					delete(cp, name)
+					pth, _ := op["path"].(string)
+					frm, _ := op["from"].(string)
+					if !touchesProtected(pth) && !(op["from"] != nil && touchesProtected(frm)) && !strings.HasPrefix(pth, "/alsoKnownAs") && !strings.HasPrefix(frm, "/alsoKnownAs") {
+						bad, why = cp, fmt.Sprintf("member %q only present as %q", name, other)
+						break
+					}
+				}
 			}
 			path, _ := op["path"].(string)
 			from, _ := op["from"].(string)
